@@ -6,6 +6,8 @@
 From Coq Require Import NArith ZArith List Bool Lia.
 From SyModel Require Import Engine Verify.
 From SyProofs Require Import Verify_proofs.
+From SyGen Require Import StateGuards.
+From SyProofs Require Import StateGuards_proofs.
 Import ListNotations.
 
 (* every verification mode, any pair of trees (type conflicts included): exit 0 iff both trees hold the same files with
@@ -55,3 +57,13 @@ Example ex_verify :
   let r := verify CkContent None None src dst in
   vr_matched r = 1 /\ vr_mismatched r = [[1%N; 2%N]] /\ vr_only_src r = [[4%N]] /\ vr_only_dst r = [[5%N]] /\ verify_exit r = 1%Z.
 Proof. vm_compute. repeat split. Qed.
+
+(* "It never modifies either tree" -- sy's own files in the destination included: of the state-file sites translated from the source
+   (coq/gen/StateGuards.v) the two in main.rs cannot run under --verify-only, whatever the other flags (858b5e0 added the
+   condition); the engine-side sites are out of reach: main.rs handles --verify-only and leaves the process before
+   SyncEngine::sync can be called (anchor VERIFY_EXITS_BEFORE_SYNC), and `verify` itself contains no such call (the translator
+   finds each site exactly where it expects it) *)
+Theorem C15_verify_only_clears_no_state_file : forall f,
+  f_verify_only f = true -> forallb (fun g => negb (snd g f)) main_guards = true.
+Proof. exact verify_only_main_no_state_file. Qed.
+Print Assumptions C15_verify_only_clears_no_state_file.
